@@ -525,11 +525,12 @@ FindingP probeAgree(Eval& ev, const Cfg& fac, const Cfg& leg) {
     if (runaway(y)) return runawayFinding(y, leg);
     const Out& x = ev.out(fac); if (x.threw) return nullptr;
     const Parsed& p = ev.parse(fac); if (!p.ok || compareTrees(ev.m.exp, p.nodes, true).any) return nullptr;    // the factory product itself is wrong: oracle 1 reports that
-    if (y.threw) return finding("serializers-disagree", "", "the factory product round-trips, FormatterToXML failed with " + excName(y));
+    // the symptom is part of the signature: the legacy serializer goes wrong in several unrelated ways for the same class of character
+    if (y.threw) return finding("serializers-disagree", "error", "the factory product round-trips, FormatterToXML failed with " + excName(y));
     const Parsed& q = ev.parse(leg);
-    if (!q.ok) return finding("serializers-disagree", "", "the factory product round-trips, FormatterToXML output (" + std::to_string(y.bytes.size()) + " bytes) is not well-formed: " + q.err + " (first node that did not arrive: " + culprit(p.nodes, q.nodes, true) + ")");
+    if (!q.ok) return finding("serializers-disagree", q.err.find("]]>") != std::string::npos ? "nwf-cdata-end" : q.err.find("character reference") != std::string::npos ? "nwf-charref" : q.err.find("nvalid character") != std::string::npos ? "nwf-char" : "nwf", "the factory product round-trips, FormatterToXML output (" + std::to_string(y.bytes.size()) + " bytes) is not well-formed: " + q.err + " (first node that did not arrive: " + culprit(p.nodes, q.nodes, true) + ")");
     Diff d = compareTrees(p.nodes, q.nodes, true); if (!d.any) return nullptr;
-    return finding("serializers-disagree", "", "factory product vs FormatterToXML: " + d.what);
+    return finding("serializers-disagree", "tree", "factory product vs FormatterToXML: " + d.what);
 }
 // oracle 5
 FindingP probeFault(Eval& ev, const Cfg& c, Out* faultedOut = nullptr) {
